@@ -313,6 +313,25 @@ pub fn run(env: &Env, run: &Run) -> (Stats, Coverage) {
                         let s = from_cps(&lab);
                         check_label(env, Prof::Ucm, &s, &mut st);
                     }
+                    // far apart / behind a long prefix (lookups memoised per call for long labels
+                    // only), wherever the two differ in class; fillers: digits (EN, fine in both
+                    // kinds of label) and letters
+                    if cp < a && env.ud16.bidi(cp) != env.ud16.bidi(a) {
+                        for (fill, n) in [(0x31u32, 40usize), (0x61, 40), (0x5D1, 20)] {
+                            for (p, q) in [(cp, a), (a, cp)] {
+                                for lab in [
+                                    [vec![p], vec![fill; n], vec![q]].concat(),
+                                    [vec![fill; n], vec![p, q]].concat(),
+                                    [vec![p, q], vec![fill; n]].concat(),
+                                    [vec![r, p], vec![fill; n], vec![q, r]].concat(),
+                                ] {
+                                    st.transitions += 1;
+                                    let s = from_cps(&lab);
+                                    check_label(env, Prof::Ucm, &s, &mut st);
+                                }
+                            }
+                        }
+                    }
                 }
             }
             st
